@@ -50,6 +50,17 @@ AttributedIdx(tr, q) ==
 AttributedKeys(tr, q) == {ResultKey(tr[i]) : i \in AttributedIdx(tr, q)}
 Attributed(tr, q) ==
     [key \in AttributedKeys(tr, q) |-> Cardinality({i \in AttributedIdx(tr, q) : ResultKey(tr[i]) = key})]
+\* what a signature covers: the bag of content ids attributed to the signer
+CidBag(tr, q) ==
+    LET idx == AttributedIdx(tr, q)  cids == {tr[i].c : i \in idx} IN
+    [c \in cids |-> Cardinality({i \in idx : tr[i].c = c})]
+BagSize(b) ==
+    LET RECURSIVE Sum(_)
+        Sum(S) == IF S = {} THEN 0 ELSE LET x == CHOOSE y \in S : TRUE IN b[x] + Sum(S \ {x})
+    IN Sum(DOMAIN b)
+\* the rule of verification.rs merge: the larger bag wins, the smaller must be contained in it
+Nested(a, b) == IF BagSize(a) <= BagSize(b) THEN BagSubset(a, b) ELSE BagSubset(b, a)
+
 AttributedPeers(tr) ==
     {tr[i].p : i \in {j \in Indices(tr) : IsResult(tr[j]) /\ ~(tr[j].k = "exec" /\ tr[j].vt = "unused")}}
 
